@@ -12,7 +12,11 @@ from ..exact import NotExact, call, present, rand_int_matrix, split_int
 
 RULE = ("configurations (dims, traced set with listing order, sys/dim argument form, dtype, numeric or cvxpy Variable) from the seeded "
         "generator, plus all subsets/orders for small dims (thorough); entries are random (Gaussian) integers so float arithmetic is exact and "
-        "equality is demanded; non-trivial = at least one kept and one traced subsystem of dimension > 1; distinct = configuration hash")
+        "equality is demanded; the cvxpy Variable branch (real / complex / symmetric / hermitian / PSD variables) is determined completely by evaluating "
+        "the returned expression on a basis of the variable's domain and compared with the Lean model run on the free expression type; raw argument "
+        "forms (omitted / scalar / one-element / list dim, None / int / list sys incl. repeated, negative, out-of-range entries, wrong products) are "
+        "decoded by the Lean model and acceptance as well as the result must agree; non-trivial = at least one kept and one traced subsystem of "
+        "dimension > 1; distinct = configuration hash")
 ASSUMPTIONS = ["a linear map agreeing with the model on a random big-integer point of a box of side 2^13 differs from it with probability <= 2^-13 per case (Schwartz-Zippel); the thorough tier also runs the full E_ij basis on small sizes"]
 
 
@@ -56,9 +60,10 @@ def check(ctx, dims, sys_arg, dim_form, dtype, variable=False, basis=None):
     ctx.case(desc, nontriv, f"ptrace/{dim_form}/{'var' if variable else dtype}/sysform={'int' if isinstance(sys_arg, int) else ('none' if sys_arg is None else 'list')}")
     mre = ctx.lean().ask("partial_trace", {"n": N, "data": re, "sys": sys_js, "dim": dim_js})
     if "reject" in mre:
-        if impl[0] == "reject" or (impl[0] == "raise" and "Invalid" in impl[1]):
+        ctx.count("model-rejects/" + mre["reject"])
+        if impl[0] != "ok":     # ValueError("Invalid…") raised directly or by permute_systems, IndexError from dim[idx]
             return True
-        return not ctx.violation(f"partial_trace: model rejects ({mre['reject']}) but implementation returns", {"function": "partial_trace", "args": desc, "impl": str(impl)[:300]})
+        return not ctx.violation(f"partial_trace: model rejects ({mre['reject']}) but implementation returns", {"function": "partial_trace", "args": desc, "impl": str(impl)[:300], "theorem": "ptrace_args_list"})
     mim = ctx.lean().ask("partial_trace", {"n": N, "data": im, "sys": sys_js, "dim": dim_js}) if any(im) else {"data": [0] * len(mre["data"])}
     if impl[0] != "ok":
         return not ctx.violation(f"partial_trace: implementation {impl[0]} ({impl[1]}) on a valid call", {"function": "partial_trace", "args": desc, "theorem": "ptrace_eq_spec"})
@@ -70,6 +75,156 @@ def check(ctx, dims, sys_arg, dim_form, dtype, variable=False, basis=None):
         return not ctx.violation("partial_trace: output differs from the index contraction over the traced subsystems",
                                  {"function": "partial_trace", "args": desc, "input_re": re[:256], "input_im": im[:256], "impl_re": ire[:64], "model_re": mre["data"][:64],
                                   "impl_shape": shape, "model_shape": mre["shape"], "theorem": "ptrace_eq_spec"})
+    return True
+
+
+# ------------------------------------------------------------------------------------------------
+# cvxpy Variable branch: the returned expression is a linear function of the variable; it is determined completely (not sampled)
+# by evaluating it on a basis of the variable's domain, and compared with the Lean model run on the free expression type
+# (`partialTraceCvx` / `partialTransposeCvx`: for every output entry the list of index atoms V[r, c] it sums).
+
+VAR_KINDS_SQUARE = ["real", "complex", "symmetric", "hermitian", "PSD"]
+VAR_KINDS_RECT = ["real", "complex"]
+
+
+def make_variable(kind, R, C):
+    import cvxpy
+    if kind == "real":
+        return cvxpy.Variable((R, C))
+    if kind == "complex":
+        return cvxpy.Variable((R, C), complex=True)
+    if kind == "symmetric":
+        return cvxpy.Variable((R, R), symmetric=True)
+    if kind == "hermitian":
+        return cvxpy.Variable((R, R), hermitian=True)
+    if kind == "PSD":
+        return cvxpy.Variable((R, R), PSD=True)
+    raise ValueError(kind)
+
+
+def variable_bases(kind, R, C):
+    """matrices (exact small integers / Gaussian integers) that lie in the variable's domain and span it over the reals"""
+    def E(r, c, v=1.0):
+        m = np.zeros((R, C), dtype=complex if kind in ("complex", "hermitian") else float)
+        m[r, c] = v
+        return m
+    out = []
+    if kind == "real":
+        out = [E(r, c) for r in range(R) for c in range(C)]
+    elif kind == "complex":
+        out = [E(r, c) for r in range(R) for c in range(C)] + [E(r, c, 1j) for r in range(R) for c in range(C)]
+    elif kind == "symmetric":
+        out = [E(r, r) for r in range(R)] + [E(r, c) + E(c, r) for r in range(R) for c in range(r + 1, R)]
+    elif kind == "hermitian":
+        out = [E(r, r) for r in range(R)] + [E(r, c) + E(c, r) for r in range(R) for c in range(r + 1, R)] \
+            + [E(r, c, 1j) + E(c, r, -1j) for r in range(R) for c in range(r + 1, R)]
+    elif kind == "PSD":
+        out = [E(r, r) for r in range(R)] + [E(r, r) + E(c, c) + E(r, c) + E(c, r) for r in range(R) for c in range(r + 1, R)]
+    return out
+
+
+def expected_from_terms(model, B):
+    """value of the model's expression matrix when the variable holds B: out[i, j] = sum of B[r, c] over the atoms of entry (i, j)"""
+    rows, cols = model["shape"]
+    out = np.zeros((rows, cols), dtype=complex)
+    for k, terms in enumerate(model["terms"]):
+        out[k // cols, k % cols] = sum(B[r, c] for r, c in terms)
+    return out
+
+
+def determine_variable_branch(ctx, what, fn, op, model_args, py_args, kind, R, C, desc, thm):
+    """fn(V, *py_args) for a cvxpy Variable V of the given kind against the Lean op `op` (symbolic model); True iff consistent"""
+    V = make_variable(kind, R, C)
+    impl = call(fn, V, *py_args)
+    model = ctx.lean().ask(op, model_args)
+    if "reject" in model:
+        ctx.count("model-rejects/" + model["reject"])
+        if impl[0] != "ok":
+            return True
+        return not ctx.violation(f"{what}: model rejects ({model['reject']}) a cvxpy Variable call but the implementation returns", {"function": what, "args": desc, "theorem": thm})
+    if impl[0] != "ok":
+        return not ctx.violation(f"{what}: implementation {impl[0]} ({impl[1]}) on a valid call with a cvxpy Variable", {"function": what, "args": desc, "theorem": thm})
+    expr = impl[1]
+    if list(expr.shape) != model["shape"]:
+        return not ctx.violation(f"{what}: shape of the returned cvxpy expression {list(expr.shape)} differs from {model['shape']}", {"function": what, "args": desc, "theorem": thm})
+    for B in variable_bases(kind, R, C):
+        V.value = B
+        got = np.asarray(expr.value)
+        exp = expected_from_terms(model, B)
+        if not np.array_equal(np.asarray(got, dtype=complex), exp):
+            bad = np.argwhere(np.asarray(got, dtype=complex) != exp)[:4].tolist()
+            return not ctx.violation(f"{what}: the expression returned for a cvxpy Variable is not the same linear map as for a numeric array "
+                                     f"(variable kind {kind}; differs at output entries {bad} when the variable holds a basis matrix)",
+                                     {"function": what, "args": desc, "basis_re": np.real(B).astype(int).tolist(), "basis_im": np.imag(B).astype(int).tolist(),
+                                      "impl_re": np.real(got).tolist(), "impl_im": np.imag(got).tolist(), "model_re": np.real(exp).tolist(), "model_im": np.imag(exp).tolist(),
+                                      "theorem": thm})
+    ctx.count(f"cvx-branch-determined/{kind}")
+    return True
+
+
+def check_var(ctx, dims, sys_arg, dim_form, kind):
+    N = int(np.prod(dims))
+    dim_py, dim_js = dim_arg(dims, dim_form)
+    sys_js = sys_arg if sys_arg is None or isinstance(sys_arg, int) else list(sys_arg)
+    desc = {"fn": "partial_trace_var", "dims": dims, "sys": sys_js, "dim_form": dim_form, "kind": kind}
+    sl = [sys_arg] if isinstance(sys_arg, int) else ([1] if sys_arg is None else list(sys_arg))
+    eff = dims if dim_form not in ("scalar", "list1", "omitted") else [dims[0], N // dims[0]]
+    try:
+        nontriv = any(eff[s] > 1 for s in sl) and any(eff[k] > 1 for k in range(len(eff)) if k not in sl)
+    except IndexError:
+        nontriv = False
+    ctx.case(desc, nontriv, f"ptrace-var/{kind}/{dim_form}/sysform={'int' if isinstance(sys_arg, int) else ('none' if sys_arg is None else 'list')}")
+    return determine_variable_branch(ctx, "partial_trace", partial_trace, "partial_trace_sym", {"n": N, "sys": sys_js, "dim": dim_js},
+                                     (sys_arg, dim_py), kind, N, N, desc, "ptrace_cvx_value / ptrace_cvx_atoms")
+
+
+def check_var_raw(ctx, N, sys_arg, dim_py, kind):
+    """partial_trace(V, sys, dim) for a cvxpy Variable with raw arguments (valid or not), against the symbolic model"""
+    dim_js = None if dim_py is None else (int(dim_py) if isinstance(dim_py, int) else [int(d) for d in dim_py])
+    desc = {"fn": "partial_trace_var_raw", "N": N, "sys": sys_arg, "dim": dim_js, "kind": kind}
+    ctx.case(desc, False, f"ptrace-var-raw/{kind}/dim={'none' if dim_py is None else 'given'}")
+    return determine_variable_branch(ctx, "partial_trace", partial_trace, "partial_trace_sym", {"n": N, "sys": sys_arg, "dim": dim_js},
+                                     (sys_arg, dim_py), kind, N, N, desc, "ptrace_args_omitted / ptrace_args_omitted_rejects / ptrace_cvx_value")
+
+
+def dim_arg(dims, dim_form):
+    """(python argument, JSON form handed to the model) for one of the accepted forms of `dim`"""
+    if dim_form == "list":
+        return list(dims), [int(d) for d in dims]
+    if dim_form == "array":
+        return np.array(dims), [int(d) for d in dims]
+    if dim_form == "scalar":
+        return int(dims[0]), int(dims[0])
+    if dim_form == "list1":
+        return [int(dims[0])], [int(dims[0])]
+    return None, None
+
+
+def check_raw(ctx, N, sys_arg, dim_py, dtype, branch):
+    """any call partial_trace(X, sys, dim) with raw arguments (valid or not): acceptance and result must agree with the model"""
+    X = rand_int_matrix(ctx.rng, (N, N), dtype)
+    impl = call(partial_trace, X, sys_arg, dim_py)
+    _, re, im = split_int(X)
+    dim_js = None if dim_py is None else (int(dim_py) if isinstance(dim_py, int) else [int(d) for d in dim_py])
+    desc = {"fn": "partial_trace_raw", "N": N, "sys": sys_arg, "dim": dim_js, "dtype": dtype}
+    mre = ctx.lean().ask("partial_trace", {"n": N, "data": re, "sys": sys_arg, "dim": dim_js})
+    ctx.case(desc, "reject" not in mre and mre["shape"][0] not in (1, N), branch + ("/rejected" if "reject" in mre else "/accepted"))
+    if "reject" in mre:
+        ctx.count("model-rejects/" + mre["reject"])
+        if impl[0] != "ok":
+            return True
+        return not ctx.violation(f"partial_trace: model rejects ({mre['reject']}) but implementation returns", {"function": "partial_trace", "args": desc, "impl": str(impl)[:300], "theorem": "ptrace_args_list"})
+    if impl[0] != "ok":
+        return not ctx.violation(f"partial_trace: implementation {impl[0]} ({impl[1]}) on a call the model accepts", {"function": "partial_trace", "args": desc, "theorem": "ptrace_args_list"})
+    mim = ctx.lean().ask("partial_trace", {"n": N, "data": im, "sys": sys_arg, "dim": dim_js}) if any(im) else {"data": [0] * len(mre["data"])}
+    try:
+        shape, ire, iim = split_int(impl[1])
+    except NotExact as e:
+        return not ctx.violation(f"partial_trace: output not integral on integer input ({e})", {"function": "partial_trace", "args": desc})
+    if ire != mre["data"] or iim != mim["data"] or shape != mre["shape"]:
+        return not ctx.violation("partial_trace: output differs from the model for this argument form",
+                                 {"function": "partial_trace", "args": desc, "input_re": re[:256], "input_im": im[:256], "impl_re": ire[:64], "model_re": mre["data"][:64],
+                                  "impl_shape": shape, "model_shape": mre["shape"], "theorem": "ptrace_args_scalar / ptrace_args_omitted / ptrace_args_list"})
     return True
 
 
@@ -131,6 +286,60 @@ def run(ctx, model_ok=True):
             continue
         S = rand_subset(rng, n)
         check(ctx, dims, S[0] if len(S) == 1 and rng.integers(2) else S, "list", str(rng.choice(["float64", "complex128"])), variable=True)
+    # cvxpy Variable branch determined completely on a basis (all variable kinds, all dim / sys forms)
+    vr = rng.spawn(1)[0]
+    check_var(ctx, [2, 3], [0], "list", "real")
+    check_var(ctx, [2, 2], None, "omitted", "hermitian")
+    check_var(ctx, [3, 2], 1, "scalar", "complex")
+    for it in range(40 if quick else 300):
+        n = int(vr.choice([2, 2, 3]))
+        dims = gen.rand_dims(vr, n, 1, 3, 9 if quick else 12)
+        if int(np.prod(dims)) < 2:
+            continue
+        S = rand_subset(vr, n)
+        check_var(ctx, dims, S[0] if len(S) == 1 and vr.integers(2) else S, str(vr.choice(["list", "array"])), str(vr.choice(VAR_KINDS_SQUARE)))
+    for it in range(12 if quick else 80):
+        d0, d1 = int(vr.integers(1, 4)), int(vr.integers(1, 4))
+        if d0 * d1 < 2:
+            continue
+        check_var(ctx, [d0, d1], [None, 0, 1, [0], [1]][int(vr.integers(5))], str(vr.choice(["scalar", "list1"])), str(vr.choice(VAR_KINDS_SQUARE)))
+        if d0 > 1:
+            check_var(ctx, [d0, d0], [None, 0, [1]][int(vr.integers(3))], "omitted", str(vr.choice(VAR_KINDS_SQUARE)))
+    # raw argument forms, accepted and rejected: the model decodes them (Toq/Model/PartialOpsArgs.lean)
+    ar = rng.spawn(1)[0]
+    for N, s_, d_ in [(6, [-1], [2, 3]), (6, -1, [2, 3]), (6, [0, 0], [2, 3]), (6, [2], [2, 3]), (6, [-3], [2, 3]), (6, [0], [2, 2]), (6, [0], 4), (6, [0], [4]),
+                      (6, None, None), (2, None, None), (5, None, None), (8, None, None), (12, None, None), (12, 0, None), (6, [1, 0], None), (6, [0, 1], [2, 3]),
+                      (4, [1, 1], None), (9, 2, None), (9, 1, 3), (8, [0, 2, 1], [2, 2, 2]), (8, [0, 2, 2], [2, 2, 2]), (8, [3], [2, 2, 2]), (8, 0, [2, 2, 3])]:
+        check_raw(ctx, N, s_, d_, "float64", "args/corpus")
+    # omitted dim: rejected unless the size is a perfect square (numeric and cvxpy inputs), two equal subsystems otherwise
+    for N in (6, 8, 12, 2, 3, 4, 9, 16):
+        for s_ in (None, 0, [1]):
+            check_raw(ctx, N, s_, None, "float64", "args/dim-omitted-fixed-sizes")
+        check_var_raw(ctx, N, None, None, "real")
+        if N <= 9:
+            check_var_raw(ctx, N, [0, None, [1]][N % 3], None, ["complex", "hermitian", "PSD"][N % 3])
+    for it in range(150 if quick else 1500):
+        kind = int(ar.integers(5))
+        if kind == 0:      # omitted dim on any size (perfect squares and not)
+            N = int(ar.choice([4, 9, 16, 25])) if ar.integers(2) else int(ar.integers(2, 31))
+            check_raw(ctx, N, [None, 0, 1, [0], [1], [1, 0], 2, -1][int(ar.integers(8))], None, "float64", "args/dim-omitted")
+        elif kind == 1:    # scalar / one-element dim, dividing or not
+            N = int(ar.integers(2, 25))
+            d = int(ar.choice([x for x in range(1, N + 1) if N % x == 0])) if ar.integers(2) else int(ar.integers(1, N + 2))
+            check_raw(ctx, N, [None, 0, 1, [0], [1], [0, 1]][int(ar.integers(6))], d if ar.integers(2) else [d], str(ar.choice(["float64", "complex128"])), "args/dim-scalar")
+        else:              # list dim, sys lists with repeated / negative / out-of-range entries and wrong products
+            n = int(ar.integers(2, 5))
+            dims = gen.rand_dims(ar, n, 1, 3, 24)
+            N = int(np.prod(dims))
+            if N < 2:
+                continue
+            k = int(ar.integers(1, n + 1))
+            sys_l = [int(x) for x in ar.integers(-1 if kind == 2 else 0, n + (1 if kind == 2 else 0), size=k)] if kind in (2, 3) else [int(x) for x in ar.permutation(n)[:k]]
+            if kind == 4 and ar.integers(3) == 0:
+                dims = list(dims)
+                dims[int(ar.integers(n))] += 1      # product no longer matches
+            sys_arg = sys_l[0] if len(sys_l) == 1 and ar.integers(2) else sys_l
+            check_raw(ctx, N, sys_arg, dims, str(ar.choice(["int64", "float64"])), "args/list")
     if not quick:
         # all subsets in all listing orders for all dim vectors with product <= 24, n <= 4
         for n in range(1, 5):
@@ -151,5 +360,11 @@ def run(ctx, model_ok=True):
 
 def replay(ctx, rec):
     a = rec["args"]
+    if a.get("fn") == "partial_trace_var":
+        return check_var(ctx, a["dims"], a["sys"], a["dim_form"], a["kind"])
+    if a.get("fn") == "partial_trace_var_raw":
+        return check_var_raw(ctx, a["N"], a["sys"], a["dim"], a["kind"])
+    if a.get("fn") == "partial_trace_raw":
+        return check_raw(ctx, a["N"], a["sys"], a["dim"], a["dtype"], "replay")
     s = a["sys"]
     check(ctx, a["dims"], s, a["dim_form"], a["dtype"], a.get("variable", False), tuple(a["basis"]) if a.get("basis") else None)
